@@ -78,6 +78,19 @@ def pipelined_passive():
     return out
 
 
+def slow_logout_sessions():
+    """A user manager whose logout notification takes a few loop iterations; the session (holding a listener and its port) ends
+    and server.close() arrives while it is being torn down: the port still goes back."""
+    out = []
+    for cmd in ("PASV", "EPSV"):
+        for end in (["vanish", 1], ["send", 1, "QUIT"], ["vanish", 1, "reset"]):
+            for a in range(0, 10):
+                out.append([["connect", 1], ["send", 1, "USER u2"], ["send", 1, cmd], ["nq", end], ["iter", a], ["nq", ["srvclose"]], ["tick", 0]])
+            out.append([["connect", 1], ["send", 1, "USER u2"], ["send", 1, cmd], end, ["connect", 2], ["send", 2, "USER u2"], ["send", 2, "PASV"],
+                        ["send", 2, "USER u2"], ["send", 2, "QUIT"], ["connect", 3], ["send", 3, "USER u2"], ["send", 3, "EPSV"], ["srvclose"]])
+    return out
+
+
 PLANS = [
     ([3001, 3002], {}),
     ([3001, 3002], {"3001": "inuse"}),
@@ -115,7 +128,10 @@ def run(tier, seed):
     for ports, plan in (([3001, 3002], {}), ([3001, 3002], {"3001": ["inuse", "ok"]}), ([3001], {"3001": ["inuse", "inuse", "ok"]}), ([], {})):
         cfg = gen.std_cfg(ns=3, usepool=bool(ports), ports=ports, port_plan=plan)
         corecheck.validate(chk, cfg, gen.STD_TREE, pp, label="pipelined-passive:pool%d:%s" % (len(ports), sorted(plan.items())))
-    scheds = scheds + sr + pp
+    so = slow_logout_sessions()
+    for k in (2, 6):
+        corecheck.validate(chk, gen.std_cfg(ns=3, usepool=True, ports=[3001, 3002], slow_logout=k), gen.STD_TREE, so, label="slow-logout:%d" % k)
+    scheds = scheds + sr + pp + so
     # a server listening on an IPv6 address: PASV opens its listener and then has no IPv4 address to give (503, session ended)
     for ports, plan in (([3001, 3002], {}), ([3001], {"3001": ["inuse", "ok"]})):
         cfg = gen.std_cfg(ns=3, usepool=True, ports=ports, port_plan=plan, v6=True)
